@@ -131,7 +131,7 @@ def norm(s):
     return re.sub(r'\s+', ' ', s).strip()
 
 
-def run(tier, seed, build, res):
+def _run_own(tier, seed, build, res):
     rng = random.Random(seed)
     res.rule = ('random sets of 1-4 non-recursive definitions (\\newcommand, '
                 '\\renewcommand, \\def; 0,1,2,3,9 parameters; optional default) '
@@ -215,16 +215,37 @@ def run(tier, seed, build, res):
             res.failures.append((key, case, '\\LTinput behind a footnote: %r, '
                                  'expected %r' % (norm(ims[3][1][1]), want)))
     # uses before the definition / redefinition affects later uses only
+    rfiles = {'c09r.tex': '\\newcommand{\\xr}{Alice}\\renewcommand{\\xs}[1]{(#1)}\n',
+              'c09q.tex': '\\renewcommand{\\xr}{Dora}\n'}
+    for f, t in rfiles.items():
+        with open(f, 'w') as fh:
+            fh.write(t)
     for latex, want in (('\\xa{} A \\newcommand{\\xa}{one} \\xa{} B '
                          '\\renewcommand{\\xa}{two} \\xa{} C', 'A one B two C'),
                         ('\\newcommand{\\xb}[1][dd]{<#1>}Z \\xb', 'Z <dd>'),
-                        ('\\newcommand{\\xb}[2][dd]{<#1#2>}\\footnote{T \\xb q}', '<ddq>')):
-        c = parsecase.T2T(latex, lang='en', pack='', files={})
+                        ('\\newcommand{\\xb}[2][dd]{<#1#2>}\\footnote{T \\xb q}', '<ddq>'),
+                        # the same file read again: its definitions apply again
+                        ('\\newcommand{\\xs}[1]{#1}\\LTinput{c09r.tex}\n\\xr{} A '
+                         '\\renewcommand{\\xr}{Carol}\\xr{} B\n\\LTinput{c09r.tex}\n\\xr{} C',
+                         'Alice A Carol B Alice C'),
+                        ('\\newcommand{\\xs}[1]{#1}\\LTinput{c09r.tex}\n\\xr{} A\n'
+                         '\\LTinput{c09q.tex}\n\\xr{} B\n\\LTinput{c09r.tex}\n\\xr{} \\xs{C}',
+                         'Alice A Dora B Alice (C)'),
+                        ('\\newcommand{\\xb}[1][D]{<#1>}A \\xb', 'A <D>'),
+                        ('\\newcommand{\\xb}[1][D]{<#1>}\\textbf{A \\xb}\n', 'A <D>')):
+        c = parsecase.T2T(latex, lang='en', pack='', files=dict(rfiles))
         im = parsecase.run_t2t(c)
         res.count('order', c.key())
         if im[0] != 'OK' or want not in norm(im[1][1]):
             res.failures.append(('c09-order:%r' % latex, c.json(),
                                  'expected %r in %r' % (want, im[1][1] if im[0] == 'OK' else im)))
+
+
+def run(tier, seed, build, res):
+    _run_own(tier, seed, build, res)
+    # snippets of /repo's own tests and their mutations (harness/seeds.py)
+    universe.run_seeds(random.Random(seed + 7), res, project, tier, share=0.6)
+    universe.heading_finding('C09', res)
 
 
 def replay(payload, build, res):
